@@ -24,7 +24,7 @@ def run(ctx, prop, nscen):
     scratch = "/dev/shm/verif-%s-%d" % (prop, os.getpid())
     shutil.rmtree(scratch, ignore_errors=True)
     try:
-        vlib.vdrive(ctx, ["sql", "c09", tr, nscen, scratch, prop], timeout=3000, ok_codes=(0, 3))
+        vlib.vdrive_resumable(ctx, ["sql", "c09", tr, nscen, scratch, prop], tr, timeout=3000)
     finally:
         shutil.rmtree(scratch, ignore_errors=True)
     res = vlib.validate(ctx, FAM, "SqlModelTrace", "Trace.cfg", tr, name="val-" + prop.lower(), timeout=3400)
